@@ -26,6 +26,9 @@ type PropConfig struct {
 	Assumptions []string `json:"assumptions"`
 	Meta     []string `json:"meta_arguments"`
 	Extra    []string `json:"extra_checks"` // names of built-in extra engines (frame, lean, ...)
+	FramePkgs []string `json:"frame_packages"`
+	ReadOnly map[string][]string `json:"frame_read_only"`
+	AllowSync []string `json:"frame_allow_sync"`
 }
 
 type KnownFinding struct {
@@ -182,6 +185,47 @@ func cmdCheck(args []string) int {
 		}
 		all = append(all, obls...)
 		smokes = append(smokes, sm...)
+	}
+	if len(pc.FramePkgs) > 0 {
+		fe, err := NewFrameEngine(*repo)
+		if err != nil {
+			fmt.Fprintln(os.Stderr, "frame engine:", err)
+			return 2
+		}
+		allow := map[string]bool{}
+		for _, a := range pc.AllowSync {
+			allow[a] = true
+		}
+		ro := fe.AutoReadOnly()
+		for k, v := range pc.ReadOnly {
+			ro[k] = v
+		}
+		fobls, fas := fe.FrameObligations(pc.FramePkgs, ro, allow)
+		for _, a := range fas {
+			g.noteAssumption(a)
+		}
+		for _, o := range fobls {
+			ur := unitOf[o.Fn]
+			if ur == nil {
+				ur = &unitResult{Name: o.Fn, Kind: "frame-analysis", Level: "frame"}
+				units = append(units, ur)
+				unitOf[o.Fn] = ur
+			}
+			ur.Obls++
+		}
+		all = append(all, fobls...)
+		// every listed read-only function must exist
+		seen := map[string]bool{}
+		for _, o := range fobls {
+			if i := strings.Index(o.Name, "/frame:read-only"); i > 0 {
+				seen[o.Name[:i]] = true
+			}
+		}
+		for k := range pc.ReadOnly {
+			if !seen[k] {
+				stale = append(stale, staleUnit{"frame:" + k, "read-only function " + k + " not found in the current tree"})
+			}
+		}
 	}
 	workers := runtime.NumCPU()
 	sv.SolveAll(all, workers, nil)
